@@ -436,7 +436,7 @@ pub fn disarm() {
 /// Start the watchdog of the main thread (once per process).
 pub fn start_main_watchdog(property: String, tier: String) {
     use std::sync::atomic::Ordering;
-    let hang_secs: u64 = std::env::var("VERIF_HANG_SECS").ok().and_then(|s| s.parse().ok()).unwrap_or(90);
+    let hang_secs: u64 = std::env::var("VERIF_HANG_SECS").ok().and_then(|s| s.parse().ok()).unwrap_or(300);
     std::thread::spawn(move || {
         let mut last = 0u64;
         let mut stalled_wall = 0u64;
@@ -548,7 +548,7 @@ where
     let next = AtomicUsize::new(0);
     let threads = std::thread::available_parallelism().map(|x| x.get()).unwrap_or(4).min(32);
     let threads: usize = std::env::var("VERIF_THREADS").ok().and_then(|s| s.parse().ok()).unwrap_or(threads);
-    let hang_secs: u64 = std::env::var("VERIF_HANG_SECS").ok().and_then(|s| s.parse().ok()).unwrap_or(90);
+    let hang_secs: u64 = std::env::var("VERIF_HANG_SECS").ok().and_then(|s| s.parse().ok()).unwrap_or(300);
     let hbs: Vec<Arc<AtomicU64>> = (0..threads).map(|_| Arc::new(AtomicU64::new(0))).collect();
     let cur: Vec<AtomicUsize> = (0..threads).map(|_| AtomicUsize::new(usize::MAX)).collect();
     // CPU clock id of each worker (i64::MIN: not registered / unavailable)
